@@ -3,6 +3,7 @@ package rel
 import (
 	"context"
 	"fmt"
+	"math"
 	"reflect"
 	"strconv"
 	"unsafe"
@@ -37,7 +38,13 @@ func (n Number) Int() (int, bool) {
 
 // Hash computes a hash for a Number.
 func (n Number) Hash(seed uintptr) uintptr {
-	return hash.Float64(float64(n), seed)
+	f := float64(n)
+	if math.IsNaN(f) {
+		// hash.Float64 panics on NaN (index out of range / nil dereference in its
+		// fastrand); NaN never equals anything, so any fixed hash will do.
+		return hash.Uint64(0x7ff8000000000001, seed)
+	}
+	return hash.Float64(f, seed)
 }
 
 // Equal tests two Values for equality. Any other type returns false.
